@@ -443,9 +443,11 @@ pub fn check_program(model: &mut Model, report: &mut Report, cfg: &Cfg, code: &s
     if cfg.rule_name == "remove_assertions" && cfg.oracle {
         let w = model.ask(&format!("c17.wholeassert {}", j.sexp0));
         let bucket = match w.as_str() {
-            "(true true)" => "inside",
-            "(false true)" | "(false false)" => "outside: program declares or assigns assert",
-            "(true false)" => "outside: a round without a link (zero or >= 2 arguments in expression position, kept non-call or dropped non-atom argument, select alias)",
+            "(true true true)" => "inside both (stage 3 and HeapU)",
+            "(true false true)" => "inside HeapU only (dropped arguments allocate)",
+            "(true true false)" => "inside stage 3 only",
+            x if x.starts_with("(false") => "outside: program declares or assigns assert",
+            "(true false false)" => "outside: a round without a link (zero or >= 2 arguments in expression position, mixed kept calls / non-calls, kept non-call mentioning _, dropped argument that computes, select alias)",
             _ => panic!("c17.wholeassert protocol error: {}", w),
         };
         report.hist("assert_refines_whole_region", bucket);
